@@ -24,6 +24,10 @@ CHECKS = {
          "deterministic simulation with crash injection: a crash image of the simulated disk is taken before EVERY file-system mutation step (and at partial lengths of every write call) of every mutating operation; each image is reopened and checked against the before/after reference models",
          "Crash points are enumerated exhaustively within each sampled history (every mkdir/create/write/rename/remove/rmdir step, partial writes included); histories are seeded samples. Each image must list and visit without error, keep untouched mailboxes intact with full content, show the interrupted operation as all-or-nothing, and accept a new delivery.",
          "Crash model = process death: completed system calls persist, nothing is reordered or lost (Inbucket never fsyncs, so power loss is out of scope). Trusted: simulated disk semantics (differential-tested against the os package)."),
+ "C09": ("exploration", "DESIGN.md §4 C09",
+         "deterministic simulation: concurrent client tasks on the real stores under a seeded token scheduler (every lock, channel op, FS step is a scheduling point); recorded histories checked for linearizability with porcupine against a sequential mailbox model; crash/deadlock verdicts of the scheduler; quiescence invariants when size evictions fire",
+         "Seeded search over interleavings of 2-4 clients (plus a real retention scan) on mem/file stores with and without cap/maxkb, including mailboxes sharing a lock bucket/hash directory. One seed = one exactly replayable schedule; failures are minimised and replay-verified in fresh processes.",
+         "Pre-emption granularity is the instrumented operation; plain unsynchronised memory accesses are not interleaved mid-way (data-race clause: see DESIGN §2.7). Histories are bounded (<=14 ops + prefill) so porcupine stays tractable; its timeouts count as inconclusive."),
 }
 
 NOT_YET = "check under construction in this session; not claimed until it runs clean on the unchanged tree"
